@@ -86,16 +86,24 @@ class ChunkIO(RuleBasedStateMachine):
         quality=st.integers(90, 100),
         plane=st.sampled_from(["xy", "xz"]),
         second=st.lists(st.sampled_from([0, 0, 1, 2, 3, 4, 5, 8, 16]),
-                        min_size=9, max_size=9))
+                        min_size=9, max_size=9),
+        keystyle=st.sampled_from(["s%d", "s%d", "%dmm", "level/%d",
+                                  "scale %d", "K%d.iso", "\u00b5m-%d"]))
     @logged
     def setup(self, dtype, channels, nscales, sizes, chunks, encs, blocks,
-              kind, bits, shard_enc, quality, plane, second=None):
+              kind, bits, shard_enc, quality, plane, second=None,
+              keystyle="s%d"):
         sharded = kind.startswith("sharded")
         scales = []
         if self.LARGE:
             # chunks of 33..48 voxels per axis (36 KB .. 880 KB encoded),
             # volumes up to 100 voxels per axis
             nscales = min(nscales, 2)
+            # write buffers only exist in the sharded writer: half of the
+            # large histories use its on-disk strategy
+            if kind in ("flat", "deep"):
+                kind = "sharded_disk"
+                sharded = True
             sizes = [min(100, 41 + 3 * s // 2) for s in sizes]
             chunks = [32 + c for c in chunks]
             channels = 1 if channels == 2 else channels
@@ -111,7 +119,7 @@ class ChunkIO(RuleBasedStateMachine):
                 allowed.append("jpeg")
             enc = allowed[encs[i] % len(allowed)]
             scales.append(ds.make_scale(
-                "s%d" % i, size, chunk, enc, block=blocks,
+                keystyle % i, size, chunk, enc, block=blocks,
                 sharding=ds.sharding_dict(bits[0], bits[1], bits[2],
                                           shard_enc, shard_enc)
                 if sharded else None))
@@ -234,9 +242,21 @@ class ChunkIO(RuleBasedStateMachine):
         arr = self.content(sc, cc, seed)
         layout = ds.LAYOUTS[(seed // 7) % 9] if (seed // 7) % 9 < len(
             ds.LAYOUTS) else "c"
+        narrow = {"uint16": "uint8", "uint32": "uint16", "uint64": "uint32",
+                  "float32": "uint16"}.get(self.info["data_type"])
+        if (seed // 7) % 9 == 6 and narrow and sc["encoding"] != "jpeg":
+            # values held in a narrower type that converts safely to the
+            # dataset's type (labels kept as uint32 in a uint64 dataset, ...)
+            small = (arr.astype(np.float64) % 251).astype(narrow) \
+                if arr.dtype.kind == "f" else \
+                (arr % (int(np.iinfo(narrow).max) + 1)).astype(narrow)
+            arr = small.astype(arr.dtype)
+            given = ds.laid_out(small, layout)
+            self.flags.add("narrower_input_type")
+        else:
+            given = ds.laid_out(arr, layout)
         if layout != "c":
             self.flags.add("layout_" + layout)
-        given = ds.laid_out(arr, layout)
         try:
             self.pio.write_chunk(given, sc["key"], cc)
         except Exception as exc:
@@ -494,5 +514,5 @@ def replay(ctx, history):
 
 SUBS = [Sub("machine", run, replay, quick=400, thorough=72000,
             min_per_shard=10),
-        Sub("machine_large", run_large, replay, quick=28, thorough=8400,
+        Sub("machine_large", run_large, replay, quick=48, thorough=8400,
             min_per_shard=3)]
